@@ -198,6 +198,9 @@ func cmdCheck(args []string) int {
 		return false
 	}
 	e.Solve(allObls, cfg)
+	if os.Getenv("GOVC_KEEP") == "" {
+		os.RemoveAll(cfg.Dir) // query files are only kept for debugging (GOVC_KEEP=1): disk space is limited
+	}
 	if os.Getenv("GOVC_TIMING") != "" {
 		fmt.Fprintf(os.Stderr, "solved: %.1fs since start\n", time.Since(t0).Seconds())
 		so := append([]*Obligation{}, allObls...)
